@@ -350,6 +350,49 @@ fn run_case(case: &Case, inbound: &mut Ledger) -> Outcome {
     out
 }
 
+fn empty_name_probe(inbound: &mut Ledger) -> Result<(), (String, String)> {
+    let now = VClock::now_ms();
+    let inbound_node = stat::inbound_node();
+    let wide_in = inbound_node.generate_read_stat(20, 10_000).unwrap();
+    let blocks_before = wide_in.sum(MetricEvent::Block);
+    let name = String::new();
+    match EntryBuilder::new(name.clone()).with_traffic_type(TrafficType::Inbound).with_batch_count(2).build() {
+        Ok(e) => {
+            let node = stat::get_resource_node(&name).ok_or(("empty-name/admitted-but-no-node".to_string(), "build() returned an entry for \"\" but no statistics node exists".to_string()))?;
+            let wide = node.generate_read_stat(20, 10_000).unwrap();
+            if wide.sum(MetricEvent::Pass) != 2 || node.current_concurrency() != 1 {
+                return Err(("empty-name/admitted-but-not-accounted".into(), format!("pass {} (want 2), in-flight {} (want 1)", wide.sum(MetricEvent::Pass), node.current_concurrency())));
+            }
+            inbound.add(now, PASS, 2);
+            inbound.in_flight += 1;
+            VClock::advance_ms(7);
+            e.exit();
+            inbound.add(now + 7, COMPLETE, 2);
+            inbound.add(now + 7, RT, 7);
+            inbound.in_flight -= 1;
+            if wide.sum(MetricEvent::Complete) != 2 || wide.sum(MetricEvent::Rt) != 7 || node.current_concurrency() != 0 {
+                return Err(("empty-name/exit-not-accounted".into(), format!("complete {} (want 2), rt {} (want 7), in-flight {}", wide.sum(MetricEvent::Complete), wide.sum(MetricEvent::Rt), node.current_concurrency())));
+            }
+        }
+        Err(_) => {
+            if let Some(node) = stat::get_resource_node(&name) {
+                let wide = node.generate_read_stat(20, 10_000).unwrap();
+                if wide.sum(MetricEvent::Pass) != 0 || node.current_concurrency() != 0 {
+                    return Err(("empty-name/refused-but-recorded-as-passed".into(), format!("pass {}, in-flight {}", wide.sum(MetricEvent::Pass), node.current_concurrency())));
+                }
+            }
+            if wide_in.sum(MetricEvent::Block) == blocks_before + 2 {
+                inbound.add(now, BLOCK, 2);
+            }
+        }
+    }
+    let mut checks = 0;
+    if let Some(v) = compare("inbound", inbound_node.as_ref(), wide_in.as_ref(), inbound, VClock::now_ms(), &mut checks) {
+        return Err((format!("empty-name/{}", v.0), v.1));
+    }
+    Ok(())
+}
+
 fn main() {
     let opts = Opts::parse();
     common::install_panic_capture();
@@ -389,6 +432,15 @@ fn main() {
             }
         }
         if i % 300 == 299 {
+            stat::reset_resource_map();
+            // the unusual-but-legal resource name "": either it is accounted like any other resource, or the
+            // entry is refused (C12 allows that for malformed calls) and nothing is recorded as passed
+            VClock::set_ms(base - 20_000);
+            rep.count("empty_name_probes", 1);
+            if let Err(p) = common::catch(|| empty_name_probe(&mut inbound)).unwrap_or_else(|p| Err(("panic/empty-resource-name".to_string(), p))) {
+                rep.violation(&p.0, p.1, serde_json::json!({"probe": "one inbound entry with batch 2 on the resource name \"\", exit after 7 ms", "t": base - 20_000}));
+                break;
+            }
             stat::reset_resource_map();
         }
     }
